@@ -761,6 +761,35 @@ static void exec_line(char *line) {
             close(p[0]);
             close(p[1]);
         }
+    } else if (!strcmp(c, "chain")) {
+        /* chain name1,name2,...,leaf : this process becomes name1 and forks name2 ... ; only the leaf returns */
+        char *dup = strdup(tok[1]), *sv = NULL;
+        char *names[64];
+        int n = 0;
+        for (char *e = strtok_r(dup, ",", &sv); e && n < 64; e = strtok_r(NULL, ",", &sv)) names[n++] = decode_bytes(e, NULL);
+        for (int i = 0; i < n; i++) {
+            prctl(PR_SET_NAME, names[i]);
+            if (i == n - 1) break;
+            fflush(NULL);
+            pid_t p = fork();
+            if (p != 0) {
+                int st = 0;
+                while (waitpid(p, &st, 0) < 0 && errno == EINTR) {}
+                if (WIFSIGNALED(st)) {
+                    signal(WTERMSIG(st), SIG_DFL);
+                    raise(WTERMSIG(st));
+                }
+                _exit(WIFEXITED(st) ? WEXITSTATUS(st) : 1);
+            }
+        }
+        free(dup);
+    } else if (!strcmp(c, "hideproc")) {
+        if (mount("tmpfs", "/proc", "tmpfs", 0, NULL) != 0) {
+            fprintf(stderr, "vdrive: cannot hide /proc: %s\n", strerror(errno));
+            exit(3);
+        }
+    } else if (!strcmp(c, "unhideproc")) {
+        umount2("/proc", MNT_DETACH);
     } else if (!strcmp(c, "closefd")) close(atoi(tok[1]));
     else if (!strcmp(c, "rmdir")) {
         char *p = decode_bytes(tok[1], NULL);
